@@ -50,7 +50,7 @@ inductive PC where
   -- common tail
   | chkScrapped | sCreate | callF | inF | fScrap | fMgrLock | fDelete | fMgrUnlock
   -- new cache (manager mutex held)
-  | nCreate | nFailMgrUnlock | nFailTxUnlock | nStore | nRLock | nObjLock | nTxLock | nRegister
+  | nCreate | nFailMgrUnlock | nFailTxUnlock | nStore | nRLock | nObjLock | nTxLock | nDropOld | nRegister
   | nTxUnlock | nMgrUnlock
   -- deferred calls
   | pEnter | pMgrLock | pBody | pMgrUnlock | dRUnlock
@@ -67,6 +67,9 @@ structure Variant where
   txFirst : Bool := false
   /-- `With` on a name the transaction has already written uses the object it holds, not the map's -/
   useOwn : Bool := false
+  /-- registering a NEW cache under a name the transaction has already written (that entry was
+  evicted meanwhile) scraps and unlocks the old object instead of forgetting it locked -/
+  dropOld : Bool := false
   deriving DecidableEq, Repr, Inhabited
 
 structure Thread where
@@ -96,6 +99,8 @@ structure Obj where
   /-- ghost: its entry in `writtenCaches` was overwritten while the transaction held its write lock;
   `Commit` never unlocks it (it is unreachable: not in the map, in no `writtenCaches`) -/
   orphan : Bool := false
+  /-- ghost: scrapped and unlocked by this transaction when it registered a new cache under the same name -/
+  dropped : Option TxId := none
   deriving Repr, Inhabited
 
 structure Tx where
@@ -329,10 +334,24 @@ def stepAt (s : St) (t : Tid) (c : Choice) : PC → St
   | .nObjLock =>
     let th := s.thr t; let T := th.tx; let tx := s.txs T; let a := th.acc
     (s.setObj th.use { s.objs th.use with writer := some T }).setThr t
-      { th with pc := if s.v.txFirst then .nRegister else .nTxLock }
+      { th with pc := if s.v.txFirst then
+                        (if s.v.dropOld && (aget tx.written a.name).isSome then .nDropOld else .nRegister)
+                      else .nTxLock }
   | .nTxLock =>
     let th := s.thr t; let T := th.tx; let tx := s.txs T; let a := th.acc
-    (s.setTx T { tx with mu := some t }).setThr t { th with pc := .nRegister }
+    (s.setTx T { tx with mu := some t }).setThr t
+      { th with pc := if s.v.dropOld && (aget tx.written a.name).isSome then .nDropOld else .nRegister }
+  | .nDropOld =>
+    let th := s.thr t; let T := th.tx; let tx := s.txs T; let a := th.acc
+    -- `oldCache.scrapped = true; oldCache.mu.Unlock()`; the entry itself is overwritten by the next step
+    -- (the model removes it here: nobody can look at writtenCaches in between, the transaction mutex is held)
+    match aget tx.written a.name with
+    | some old =>
+      let ob := s.objs old
+      ((s.setObj old { ob with scrapped := true, writer := none, wown := ob.wown.erase T, dirty := some T,
+                               dropped := some T }).setTx T
+        { tx with written := tx.written.filter (fun p => p.1 != a.name) }).setThr t { th with pc := .nRegister }
+    | none => s.setThr t { th with pc := .nRegister }
   | .nRegister =>
     let th := s.thr t; let T := th.tx; let tx := s.txs T; let a := th.acc
     -- `t.writtenCaches[name] = s` OVERWRITES an entry the transaction may already have under this name
